@@ -284,14 +284,14 @@ PROPS["C09"] = {
           bounds="unwind 8; 3 steps (add/remove), 2 owners"),
         H("c09::c09_robust_history_cap3", covers=4, timeout=5400, mem_gb=12, tiers=("thorough",),
           what="robust set, capacity 3", bounds="unwind 5; 4 steps"),
-        H("c09::sched::c09_s_uis_race_cap2", crate="hs", covers=2, timeout=1800, mem_gb=10, tiers=("quick",),
+        H("c09::sched::c09_s_uis_race_cap2", crate="hs", covers=2, timeout=2400, mem_gb=14, tiers=("quick",),
           what="two threads racing acquire/release on the real free list; exclusivity, bounds, legitimate failures, "
-               "leak freedom; ABA shape witnessed", bounds="unwind 6; capacity 2, 2 outer / 2 inner operations"),
-        H("c09::sched::c09_s_uis_race_cap2_lock", crate="hs", covers=2, timeout=1800, mem_gb=10, tiers=("quick",),
+               "leak freedom; ABA shape witnessed", bounds="unwind 6; capacity 2, 1 outer operation (any of its scheduling points), up to 3 inner operations (one may run before)"),
+        H("c09::sched::c09_s_uis_race_cap2_lock", crate="hs", covers=2, timeout=2400, mem_gb=14, tiers=("quick",),
           what="same race with every release in LockIfLastIndex mode: Locked reported iff the set is locked afterwards, "
                "no acquire succeeds after a reported lock, the last release locks",
-          bounds="unwind 6; capacity 2, 2 outer / 2 inner operations"),
-        H("c09::sched::c09_s_uis_race_cap2_lock_deep", crate="hs", covers=2, timeout=7200, mem_gb=16, tiers=("thorough",),
+          bounds="unwind 6; capacity 2, 1 outer operation (any of its scheduling points), up to 3 inner operations (one may run before)"),
+        H("c09::sched::c09_s_uis_race_cap2_lock_deep", crate="hs", covers=2, timeout=7200, mem_gb=30, tiers=("thorough",),
           what="lock-if-last race, 2 outer / 3 inner operations", bounds="unwind 6"),
         H("c09::sched::c09_s_robust_recover_race", crate="hs", covers=2, timeout=2400, mem_gb=12, tiers=("quick",),
           what="robust set: recovery of a dead owner preempted at every atomic operation while a second recoverer and "
@@ -300,9 +300,9 @@ PROPS["C09"] = {
         H("c09::sched::c09_s_robust_recover_race_deep", crate="hs", covers=2, timeout=7200, mem_gb=16, tiers=("thorough",),
           what="robust recovery race with 3 inner operations", bounds="unwind 6"),
         H("c09::sched::c09_s_uis_race_cap1", crate="hs", covers=1, timeout=1800, mem_gb=8, tiers=("quick",),
-          what="same, capacity 1", bounds="unwind 6; 2 outer / 2 inner operations"),
-        H("c09::sched::c09_s_uis_race_cap3_deep", crate="hs", covers=2, timeout=7200, mem_gb=16, tiers=("thorough",),
-          what="same, capacity 3, 2 outer / 3 inner operations", bounds="unwind 6"),
+          what="same, capacity 1", bounds="unwind 6; 1 outer / 2 inner operations"),
+        H("c09::sched::c09_s_uis_race_cap3_deep", crate="hs", covers=2, timeout=7200, mem_gb=30, tiers=("thorough",),
+          what="capacity 2, 2 outer / 3 inner operations", bounds="unwind 7"),
     ],
     "claimed": False,
 }
@@ -364,14 +364,21 @@ PROPS["C14"]["harnesses"] += [
       bounds="unwind 8; placements shifted by 0/16/32 bytes"),
 ]
 PROPS["C19"]["harnesses"] += [
-    H("cal::c19iso::c19_domain_isolation", features=CAL, covers=2, timeout=2400, mem_gb=10,
+    H("cal::c19iso::c19_domain_isolation", features=CAL, covers=2, timeout=3000, mem_gb=14,
       what="NamedConceptConfiguration::path_for / extract_name_from_file / extract_name_from_path: own names "
            "round-trip; domains with unrelated prefixes, different suffix or different root never see the file",
-      bounds="unwind 12; prefixes and names of 1-2 bytes from [a-z0-9_]"),
-    H("cal::c19iso::c19_domain_isolation_prefix_of_prefix", features=CAL, covers=0, timeout=2400, mem_gb=10,
+      bounds="unwind 12; prefixes and names of exactly 2 bytes from [a-z0-9_] (lengths concrete, bytes symbolic)"),
+    H("cal::c19iso::c19_domain_isolation_mixed_len", features=CAL, covers=2, timeout=3000, mem_gb=14,
+      what="same with prefixes of different length (1 and 2 bytes): non-interference whenever neither prefix is a prefix "
+           "of the other", bounds="unwind 12; prefix lengths 1/2, names of 2 bytes"),
+    H("cal::c19iso::c19_root_isolation", features=CAL, covers=1, timeout=3000, mem_gb=14,
+      what="extract_name_from_path: a different root (unrelated, nested, sibling string-prefix) never matches in either "
+           "direction; an equivalent spelling of the root is the same domain; created paths lie under the root",
+      bounds="unwind 12; names of 1-2 bytes, 3 foreign roots"),
+    H("cal::c19iso::c19_domain_isolation_prefix_of_prefix", features=CAL, covers=0, timeout=3000, mem_gb=14,
       known="F-C19-1",
       what="the class excluded above: one prefix is a proper prefix of the other (open known finding F-C19-1)",
-      bounds="unwind 12; prefixes and names of 1-2 bytes"),
+      bounds="unwind 12; prefix lengths 1/2, names of 2 bytes"),
 ]
 
 PROPS["C13"] = {
